@@ -345,3 +345,194 @@ def _raised_inside_rp2(exc: BaseException) -> bool:
 def _innermost_rp2_frame(exc: BaseException) -> str:
     frames = _rp2_frames(exc)
     return frames[-1] if frames else "?"
+
+
+# --------------------------------------------------------------------------------------------------- file layer
+
+
+def dump_detail(computed: Any) -> Dict[str, Any]:
+    """dump_computed + every field the reports print (used by the file-layer checks as 'the computed values')."""
+    base = dump_computed(computed)
+    gls = computed.gain_loss_set
+    for entry, gl in zip(base["fractions"], gls):
+        ev = gl.taxable_event
+        lot = gl.acquired_lot
+        entry.update(
+            ev_ts=str(ev.timestamp),
+            ev_year=ev.timestamp.year,
+            ev_date=(ev.timestamp.year, ev.timestamp.month, ev.timestamp.day),
+            ev_table={"InTransaction": "IN", "OutTransaction": "OUT", "IntraTransaction": "INTRA"}[type(ev).__name__],
+            ev_uid=ev.unique_id,
+            ev_price=fr(ev.spot_price),
+            ev_total=fr(ev.crypto_balance_change),
+            ev_notes=ev.notes,
+        )
+        if lot is not None:
+            entry.update(
+                lot_ts=str(lot.timestamp),
+                lot_date=(lot.timestamp.year, lot.timestamp.month, lot.timestamp.day),
+                lot_uid=lot.unique_id,
+                lot_price=fr(lot.spot_price),
+                lot_total=fr(lot.crypto_balance_change),
+                lot_fiat_amount=fr(gl.acquired_lot_fiat_amount_with_fee_fraction),
+                lot_fee_fraction=fr(lot.fiat_fee * gl.acquired_lot_fraction_percentage),
+                lot_notes=lot.notes,
+            )
+    base["in_tx"] = [
+        {
+            "row": t.row,
+            "ts": str(t.timestamp),
+            "asset": t.asset,
+            "ex": t.exchange,
+            "ho": t.holder,
+            "type": t.transaction_type.value,
+            "price": fr(t.spot_price),
+            "crypto_in": fr(t.crypto_in),
+            "crypto_fee": fr(t.crypto_fee),
+            "fiat_fee": fr(t.fiat_fee),
+            "fiat_in_no_fee": fr(t.fiat_in_no_fee),
+            "fiat_in_with_fee": fr(t.fiat_in_with_fee),
+            "taxable": bool(t.is_taxable()),
+            "uid": t.unique_id,
+            "notes": t.notes,
+            "running": fr(computed.get_crypto_in_running_sum(t)),
+            "sold_pct": fr(computed.get_in_lot_sold_percentage(t)),
+        }
+        for t in computed.in_transaction_set
+    ]
+    base["out_tx"] = [
+        {
+            "row": t.row,
+            "ts": str(t.timestamp),
+            "asset": t.asset,
+            "ex": t.exchange,
+            "ho": t.holder,
+            "type": t.transaction_type.value,
+            "price": fr(t.spot_price),
+            "out": fr(t.crypto_out_no_fee),
+            "fee": fr(t.crypto_fee),
+            "out_with_fee": fr(t.crypto_out_with_fee),
+            "fiat_out_no_fee": fr(t.fiat_out_no_fee),
+            "fiat_fee": fr(t.fiat_fee),
+            "taxable": bool(t.is_taxable()),
+            "uid": t.unique_id,
+            "notes": t.notes,
+            "running": fr(computed.get_crypto_out_running_sum(t)),
+            "fee_running": fr(computed.get_crypto_out_fee_running_sum(t)),
+        }
+        for t in computed.out_transaction_set
+    ]
+    base["intra_tx"] = [
+        {
+            "row": t.row,
+            "ts": str(t.timestamp),
+            "asset": t.asset,
+            "from_ex": t.from_exchange,
+            "from_ho": t.from_holder,
+            "to_ex": t.to_exchange,
+            "to_ho": t.to_holder,
+            "price": fr(t.spot_price),
+            "sent": fr(t.crypto_sent),
+            "received": fr(t.crypto_received),
+            "fee": fr(t.crypto_fee),
+            "fiat_fee": fr(t.fiat_fee),
+            "taxable": bool(t.is_taxable()),
+            "uid": t.unique_id,
+            "notes": t.notes,
+            "fee_running": fr(computed.get_crypto_intra_fee_running_sum(t)),
+        }
+        for t in computed.intra_transaction_set
+    ]
+    return base
+
+
+def parse_files(ini_path: str, ods_path: str, country: str = "us", long_term_days: Optional[int] = None, from_date: Optional[str] = None, to_date: Optional[str] = None, allow_negative: bool = False) -> Tuple[Any, Dict[str, Any]]:
+    """(Configuration, {asset: InputData}) through Configuration + open_ods + parse_ods, assets in sorted order."""
+    api = rp2()
+    from rp2.ods_parser import open_ods, parse_ods
+
+    configuration = api["Configuration"](
+        ini_path,
+        country_object(country, long_term_days),
+        from_date=date.fromisoformat(from_date) if from_date else api["MIN_DATE"],
+        to_date=date.fromisoformat(to_date) if to_date else api["MAX_DATE"],
+        allow_negative_balances=allow_negative,
+    )
+    handle = open_ods(configuration, ods_path)
+    inputs = {asset: parse_ods(configuration, asset, handle) for asset in sorted(configuration.assets)}
+    return configuration, inputs
+
+
+def compute_files(
+    ini_path: str,
+    ods_path: str,
+    country: str = "us",
+    schedule: Optional[Dict[str, str]] = None,
+    long_term_days: Optional[int] = None,
+    from_date: Optional[str] = None,
+    to_date: Optional[str] = None,
+    allow_negative: bool = False,
+    assets: Optional[List[str]] = None,
+) -> Dict[str, Any]:
+    """What the CLI computes for the same files and options, through the API: {'ok', 'assets': {asset: detail dump}}."""
+    api = rp2()
+    from rp2.ods_parser import open_ods, parse_ods
+
+    try:
+        configuration = api["Configuration"](
+            ini_path,
+            country_object(country, long_term_days),
+            from_date=date.fromisoformat(from_date) if from_date else api["MIN_DATE"],
+            to_date=date.fromisoformat(to_date) if to_date else api["MAX_DATE"],
+            allow_negative_balances=allow_negative,
+        )
+        sched = schedule or {str(k): v for k, v in configuration.years_2_accounting_method_names.items()} or {"1970": "fifo"}
+        engine = make_engine(sched)
+        handle = open_ods(configuration, ods_path)
+        result: Dict[str, Any] = {}
+        for asset in sorted(assets or configuration.assets):
+            input_data = parse_ods(configuration, asset, handle)
+            result[asset] = dump_detail(api["compute_tax"](configuration, engine, input_data))
+        return {"ok": True, "assets": result}
+    except api["RP2Error"] as exc:
+        return {"ok": False, "error_type": type(exc).__name__, "error": str(exc)}
+
+
+def _instant(ts: Any) -> Tuple[int, int]:
+    """(UTC microseconds since the epoch, offset minutes) of a tz-aware datetime, in exact integer arithmetic."""
+    from datetime import datetime, timezone
+
+    delta = ts - datetime(1970, 1, 1, tzinfo=timezone.utc)
+    us = (delta.days * 86400 + delta.seconds) * 1_000_000 + delta.microseconds
+    off = ts.utcoffset()
+    return us, (off.days * 86400 + off.seconds) // 60
+
+
+def dump_input(input_data: Any) -> Dict[str, List[Dict[str, Any]]]:
+    """Field-by-field dump of the three unfiltered transaction sets of an InputData (in set insertion = list order)."""
+    result: Dict[str, List[Dict[str, Any]]] = {"in": [], "out": [], "intra": []}
+    for t in input_data.unfiltered_in_transaction_set._entry_list:  # pylint: disable=protected-access
+        us, off = _instant(t.timestamp)
+        result["in"].append(
+            dict(
+                row=t.row, us=us, off=off, asset=t.asset, ex=t.exchange, ho=t.holder, type=t.transaction_type.value, price=fr(t.spot_price), crypto_in=fr(t.crypto_in),
+                crypto_fee=fr(t.crypto_fee), fiat_fee=fr(t.fiat_fee), fiat_in_no_fee=fr(t.fiat_in_no_fee), fiat_in_with_fee=fr(t.fiat_in_with_fee), uid=t.unique_id, notes=t.notes,
+            )
+        )
+    for t in input_data.unfiltered_out_transaction_set._entry_list:  # pylint: disable=protected-access
+        us, off = _instant(t.timestamp)
+        result["out"].append(
+            dict(
+                row=t.row, us=us, off=off, asset=t.asset, ex=t.exchange, ho=t.holder, type=t.transaction_type.value, price=fr(t.spot_price), out=fr(t.crypto_out_no_fee), fee=fr(t.crypto_fee),
+                out_with_fee=fr(t.crypto_out_with_fee), fiat_out_no_fee=fr(t.fiat_out_no_fee), fiat_fee=fr(t.fiat_fee), uid=t.unique_id, notes=t.notes,
+            )
+        )
+    for t in input_data.unfiltered_intra_transaction_set._entry_list:  # pylint: disable=protected-access
+        us, off = _instant(t.timestamp)
+        result["intra"].append(
+            dict(
+                row=t.row, us=us, off=off, asset=t.asset, from_ex=t.from_exchange, from_ho=t.from_holder, to_ex=t.to_exchange, to_ho=t.to_holder, type=t.transaction_type.value,
+                price=fr(t.spot_price), sent=fr(t.crypto_sent), received=fr(t.crypto_received), fee=fr(t.crypto_fee), fiat_fee=fr(t.fiat_fee), uid=t.unique_id, notes=t.notes,
+            )
+        )
+    return result
